@@ -136,7 +136,7 @@ def universe(tier, seed, shard, nshards):
                         's1': s1, 's2': s2, 'window': None, 'penalty': enc, 'psi': enc if enc is None else (0 if inner == 'sq' else (0, 0, 0, 0)),
                         'max_step': enc, 'max_dist': enc, 'max_length_diff': None, 'use_pruning': None if enc is None else False, 'inner': inner}
                 for w in (None, 1, 2):
-                    for psi in (None, 1, (0, 1, 0, 1), (1, 0, 1, 0)):
+                    for psi in (None, 1, (0, 1, 0, 1), (1, 0, 1, 0), (1, 0, 0, 0), (0, 0, 1, 0), (0, 1, 0, 0), (0, 0, 0, 1)):
                         if psi is not None and (oracles.psi_degenerate(psi, r, c) or max(oracles.norm_psi(psi)[:2]) > r or max(oracles.norm_psi(psi)[2:]) > c):
                             continue
                         for pen in (None, 0.5):
